@@ -2,7 +2,7 @@
 Tie between the body of `convolve.py: gaussian_filter1d` (regenerated on every run into `Generated/PyBodies.lean`)
 and the weights `C06.gaussWeightsG` the driver evaluates at `Float`.
 -/
-import Mahotas.Generated.PyBodies
+import Mahotas.Generated.PyBodiesC06
 import Mahotas.Model.C06
 
 namespace Mahotas
@@ -58,7 +58,7 @@ example :
     convolve_gaussian_filter1d Int.ofNat id (fun m _ => m) P [] 1 (-1) 4 () 0 = none := by decide
 
 section laplacian
-variable {K : Type} [Add K] [Sub K] [Div K] [Neg K] [LT K] [DecidableLT K]
+variable {K : Type} [Add K] [Sub K] [Div K] [Neg K] [LT K] [DecidableLT K] [LE K] [DecidableLE K]
 
 /-- `alpha = max(0, min(alpha, 1))` as Python evaluates it; `C06.clampAlpha` is this at `Float` -/
 def pyClamp01 (ofNat : Nat → K) (a : K) : K :=
